@@ -51,14 +51,31 @@ def build(lib):
     reg('dot', lambda it, a, k: dot(it, a[0], a[1]))
     reg('transpose', lambda it, a, k: transpose(it, as_array(it, a[0])))
     reg('sum', lambda it, a, k: arr_sum(it, a[0], a[1] if len(a) > 1 else k.get('axis')))
-    reg('all', lambda it, a, k: arr_all(it, a[0]) if isinstance(a[0], (SArr, list, tuple)) else it.truth(a[0]))
-    reg('any', lambda it, a, k: arr_any(it, a[0]) if isinstance(a[0], (SArr, list, tuple)) else it.truth(a[0]))
+    reg('all', lambda it, a, k: arr_all(it, a[0]) if isinstance(a[0], (SArr, list, tuple, SList, SMutList)) else it.truth(a[0]))
+    reg('any', lambda it, a, k: arr_any(it, a[0]) if isinstance(a[0], (SArr, list, tuple, SList, SMutList)) else it.truth(a[0]))
     reg('add', lambda it, a, k: elementwise(it, ast.Add(), a[0], a[1]))
     reg('min', lambda it, a, k: arr_min(it, a[0], 'min')[0], "np.min of a non-empty array is one of its elements and <= all of them")
     reg('max', lambda it, a, k: arr_min(it, a[0], 'max')[0], "np.max likewise")
     reg('argmin', lambda it, a, k: arr_min(it, a[0], 'min')[1],
         "np.argmin: an index w with a[w] <= a[i] for all i (ties: some minimiser)")
     reg('argmax', lambda it, a, k: arr_min(it, a[0], 'max')[1])
+
+    def _minmax2(which):
+        def f(it, a, k):
+            x, y = a[0], a[1]
+            pick = (lambda u, v: z3.If(u <= v, u, v)) if which == 'min' else (lambda u, v: z3.If(u >= v, u, v))
+            if not isinstance(x, (SArr, list, tuple, SList, SMutList)) and not isinstance(y, (SArr, list, tuple, SList, SMutList)):
+                return pick(to_real(x), to_real(y))
+            ax = x if isinstance(x, SArr) else as_array(it, x)
+            ay = y if isinstance(y, SArr) else as_array(it, y)
+            shape, ma, mb = L.broadcast_shapes(it, ax.shape, ay.shape)
+            gx, gy = ax.get, ay.get
+            dt = 'int' if (ax.dtype == 'int' and ay.dtype == 'int') else 'real'
+            conv = (lambda v: v) if dt == 'int' else to_real
+            return SArr(tuple(shape), lambda o: pick(conv(gx(ma(o))), conv(gy(mb(o)))), dt)
+        return f
+    reg('minimum', _minmax2('min'), "np.minimum(a, b): elementwise smaller value (broadcast)")
+    reg('maximum', _minmax2('max'), "np.maximum(a, b): elementwise larger value (broadcast)")
 
     def _unary(fname, dtype='real'):
         def f(it, a, k):
